@@ -621,6 +621,7 @@ func init() {
 			var bad []string
 			n := 0
 			for _, fn := range eng.allRepoFunctions() {
+				loads, stores := 0, 0
 				for _, b := range fn.Blocks {
 					for _, in := range b.Instrs {
 						fa, ok := in.(*ssa.FieldAddr)
@@ -656,6 +657,12 @@ func init() {
 								callee := u.Common().StaticCallee()
 								if callee != nil && callee.Pkg != nil && callee.Pkg.Pkg.Path() == "sync/atomic" {
 									n++
+									switch {
+									case strings.HasPrefix(callee.Name(), "Load"):
+										loads++
+									case strings.HasPrefix(callee.Name(), "Store"), strings.HasPrefix(callee.Name(), "Swap"):
+										stores++
+									}
 									continue
 								}
 								bad = append(bad, fmt.Sprintf("%s passes the field's address to %v (%s)", fnDisplayName(fn), u.Common().Value, shortPos(eng.fset.Position(u.Pos()).String())))
@@ -676,6 +683,12 @@ func init() {
 							}
 						}
 					}
+				}
+				if loads > 0 && stores > 0 {
+					// an atomic load and an atomic store of the same word in one function are two steps:
+					// another goroutine's update between them is overwritten (a lost increment). A
+					// read-modify-write has to be one atomic.Add / CompareAndSwap.
+					bad = append(bad, fmt.Sprintf("%s loads and stores the field in separate atomic steps (lost update under concurrency; use atomic.Add or a CompareAndSwap loop)", fnDisplayName(fn)))
 				}
 			}
 			sort.Strings(bad)
